@@ -56,6 +56,13 @@ theorem fact_deactivation : Facts.C18.deactivationConds =
     returned as it is (so the did:web chain stops instead of going to the network) -/
 theorem fact_local_resolver_errors : Facts.C18.localResolverErrorReturns = ["resolver.ErrNotFound", "err"] := by decide
 
+/-- the local lookup is bounded by the caller's resolve time only when one is given; otherwise `Resolve` passes nil and
+    `Latest` bounds by now + 1 h — so a version written by an instance whose clock runs a little ahead (deactivations
+    included) is still "the latest" (the model's `sqlState`: the last version decides) -/
+theorem fact_local_time_bound : Facts.C18.localLatestArgs = ["id", "notAfter"] ∧
+    Facts.C18.localNotAfterAssignments = ["notAfter *time.Time = <zero value>", "notAfter = metadata.ResolveTime"] ∧
+    Facts.C18.latestDefaultBound = ["time.Now().Add(time.Hour).Unix()"] := by decide
+
 /-! ### did:web identifier <-> URL round trip -/
 
 /-- **Round trip.** For every identifier of the decidable grammar `wfDID` — method web; a domain name that is not an
